@@ -12,7 +12,7 @@ def run(res, ctx):
         if k in ctx["opts"]:
             args += ["--" + k, ctx["opts"][k]]
     if tier == "quick":
-        runner.run_harness(res, SRC, "asan", tier, args=args, deadline=240, timeout=600, shards=8)
+        runner.run_harness(res, SRC, "asan", tier, args=args, deadline=480, timeout=1200, shards=8)
     else:
         runner.run_harness(res, SRC, "asan", tier, args=args, deadline=1500, timeout=2400, shards=16)
 
